@@ -31,8 +31,13 @@ def content_picker(oracle, pool, cat, ps):
     good = [c for n, c in pool if oracle.good_for(c, cat, ps)]
     hits = [c for c in good if any(oracle.lines(c, cat, p) for p in ps)]
 
+    edge = [c for c in dc.edge_contents() if oracle.good_for(c, cat, ps)]
+
     def pick(rng):
-        if hits and rng.random() < 0.8:
+        r = rng.random()
+        if edge and r < 0.1:
+            return rng.choice(edge)       # blank / comment-only / leading-blank-lines files among the siblings
+        if hits and r < 0.82:
             return rng.choice(hits)
         return rng.choice(good)
     return pick if good else None
@@ -76,8 +81,11 @@ def gen_runs(rng, oracle, pool, tier):
     # 1. every pool content alone in a directory, all patterns of each category (this is also the
     #    check that the oracle = analyze_dir on the file on its own)
     for n, c in pool:
-        cat = rng.choice(cats)
-        runs.append(Run([F('Only.sol', c)], cat, oracle.names(cat), 'single'))
+        cat0 = rng.choice(cats)
+        for cat in cats:
+            # in every category in which the file has findings of its own (a file without any contract has them too)
+            if cat == cat0 or (oracle.good_for(c, cat, oracle.names(cat)) and any(oracle.lines(c, cat, q) for q in oracle.names(cat))):
+                runs.append(Run([F('Only.sol', c)], cat, oracle.names(cat), 'single'))
     # 2. random trees
     for k in range(n_random):
         for cat in cats:
